@@ -103,8 +103,19 @@ def at_path(dirarg, patharg):
     return os.path.normpath(os.path.join(base, p))
 
 
-def parse(text, top):
-    """-> (events, raw calls, end) ; end = ('exit', code) | ('killed', sig) | None"""
+def parse(text, top, alias=None):
+    """-> (events, raw calls, end) ; end = ('exit', code) | ('killed', sig) | None
+    alias {real directory: path of the symbolic link that leads to it}: strace -y prints descriptors by their resolved
+    path; every path is mapped back to the name the installer used."""
+    alias = alias or {}
+
+    def canon(p):
+        if p is None:
+            return p
+        for real, link in alias.items():
+            if p == real or p.startswith(real + '/'):
+                return link + p[len(real):]
+        return p
     pairs = merge_unfinished(text.splitlines())
     events, raw = [], []
     end = None
@@ -191,6 +202,9 @@ def parse(text, top):
                 ev = {'ev': 'Link'}
         except (IndexError, AttributeError, ValueError):
             ev = None
+        path = canon(path)
+        if ev is not None and 'dst' in ev:
+            ev['dst'] = canon(ev['dst'])
         rawrec = {'pid': pid, 'name': name, 'path': path, 'ret': ret, 'err': err, 'injected': inj, 'executed': executed}
         if path is None or not (path == top or path.startswith(top + '/')):
             if inj or not executed:
@@ -211,11 +225,11 @@ def parse(text, top):
 def snapshot(top):
     """path -> [content hash ('' when empty), mode] for every regular file under top"""
     out = {}
-    for dp, dn, fn in os.walk(top):
+    for dp, dn, fn in os.walk(top, followlinks=True):
         for f in fn:
             p = os.path.join(dp, f)
             try:
-                st = os.lstat(p)
+                st = os.stat(p)
                 b = open(p, 'rb').read()
             except OSError:
                 continue
